@@ -372,7 +372,7 @@ pub fn cases(run_seed: u64, tier: &str, _scratch: &str) -> Vec<Value> {
         let mut f = files[sw.usize(files.len())].clone();
         if tier != "thorough" {
             for _ in 0..20 {
-                let len = std::fs::metadata(format!("{}/{}", c11::CORPUS_DIR, f)).map(|m| m.len()).unwrap_or(0);
+                let len = std::fs::metadata(format!("{}/{}", c11::corpus_dir(), f)).map(|m| m.len()).unwrap_or(0);
                 if len <= 200_000 {
                     break;
                 }
